@@ -139,6 +139,21 @@ def wide(n, pairs, sh, V, k, D, T, form, rng):
     return rec
 
 
+def cap_relation(T):
+    """where exactly the one-sided cap sits: two cells, E_0 - E_1 just below / at / just above 500 kJ/mol (non-lattice reals);
+    max relative deviation of Q_01 and Q_10 from exp(min(dE, 500)/2RT) and exp(-dE/2RT), in units of 1e-12"""
+    from molgri.molecules.transitions import SQRA
+    worst = 0.0
+    two = coo_array((np.array([1.0, 1.0]), (np.array([0, 1]), np.array([1, 0]))), shape=(2, 2))
+    for dE in (499.0, 500.0, 500.5, 503.0, 650.0):
+        with quiet():
+            A = SQRA(np.array([dE, 0.0]), np.ones(2), two.tocsr(), two.tocsr()).get_rate_matrix(1.0, T).toarray()
+        x = 1000.0 / (2 * kB * N_A * T)
+        want01, want10 = math.exp(min(dE, 500.0) * x), math.exp(-dE * x)
+        worst = max(worst, abs(A[0, 1] / want01 - 1), abs(A[1, 0] / want10 - 1) if want10 > 0 else 0.0)
+    return int(min(np.ceil(worst * 1e12), 10 ** 9))
+
+
 def run(ctx: Ctx):
     thorough = ctx.tier == "thorough"
     rng = random.Random(ctx.seed)
@@ -191,7 +206,18 @@ def run(ctx: Ctx):
         kmax = int(495.0 / unit(T, 2))
         k = [rng.choice([0, rng.randint(0, kmax), rng.randint(0, kmax // 8), kmax]) for _ in range(n)]
         recs.append(wide(n, pairs, sh, V, k, rng.choice([1, 3]), T, rng.choice(["csr", "coo", "mixed"]), rng))
+    # the position of the cap itself (the lattice only has pairs exactly at or far beyond it)
+    for T in (250.0, 300.0, 400.0):
+        r = wide(2, [(0, 1)], [(1, 1)], [1, 1], [0, 0], 1, T, "csr", rng)
+        try:
+            r["shift12"] = max(r["shift12"], 0)
+            cap12 = cap_relation(T)
+        except Exception as ex:
+            r["err"], cap12 = type(ex).__name__, 0
+        r["cap12"] = cap12
+        recs.append(r)
     for i, r in enumerate(recs):
+        r.setdefault("cap12", 0)
         r["tid"] = i
         ctx.count(1, nontrivial_key=i if r["pat"] else None)
     rejects = ctx.validate("Sqra_Trace", "Sqra_Trace.cfg", recs, name="sqra")
